@@ -15,6 +15,8 @@
 (*          "nonobj" array / string / number / bool / null                 *)
 (*          "flat"  the flat object of the arguments of a struct message   *)
 (*   body   "exact" | "missing" | "wrongtype" | "extra" | "notobj"         *)
+(*          "null": the member's value is null                             *)
+(*          "utf8pad0".."utf8pad3": a long body of multi-byte characters   *)
 (*          "dropdefault": exact, except that the arguments carrying a     *)
 (*          forwarded `serde(default)` attribute are left out (C17)        *)
 (***************************************************************************)
